@@ -204,6 +204,12 @@ def adversarial_contents(rng, b, size):
         ("boundary-text-then-padding-then-junk", b"\n" + dd + b" \t z" + b"y" * size),
         ("delimiter-look-alike-per-line", (b"\r\n-" + dd[:-1] + b"x" * 40) * max(1, size // (44 + len(dd)))),
         ("no-line-break", x),
+        # a line that looks like an unfinished delimiter ('--b-', '--b' + blanks) but is followed by a line break and data:
+        # the "still incomplete at the very end of the buffer" test must not fire in the middle of the buffer
+        ("pending-look-alike-dash-lf", b"ab\r\n" + dd + b"-\n" + b"y" * size),
+        ("pending-look-alike-dash-crlf", b"ab\n" + dd + b"-\r\nq" + b"y" * size),
+        ("pending-look-alike-blanks-x", b"ab\r" + dd + b" \t\x0bz\n" + b"y" * size),
+        ("pending-look-alike-per-line", (b"\n" + dd + b"-\n" + b"x" * 30) * max(1, size // (36 + len(dd)))),
     ]
 
 
